@@ -228,6 +228,9 @@ def _quiet_env():
     except Exception:
         pass
     warnings.simplefilter("ignore")
+    if os.environ.get("VERIF_WORKER_STDOUT") != "1":
+        # the library prints progress / debug output; keep the check's own stdout clean
+        sys.stdout = open(os.devnull, "w")
     try:
         import numpy as np
         np.seterr(all="ignore")
